@@ -336,6 +336,7 @@ func (c *Conn) handleControl(ctx context.Context, h header) (err error) {
 	}
 
 	err = fmt.Errorf("received close frame: %w", ce)
+	c.closeReceived = err
 	c.writeClose(ce.Code, ce.Reason)
 	c.readMu.unlock()
 	c.close()
